@@ -1,4 +1,5 @@
 pub mod c01;
+pub mod c10;
 pub mod c14;
 pub mod c17;
 pub mod c18;
@@ -84,17 +85,28 @@ pub fn dispatch(prop: &str, tier: &str) -> i32 {
             cfg.assumptions = vec!["no schedule or fault is in the property's statement; it is monitored on simulated runs (see DESIGN 3 C18)".into()];
             crate::finish(&cfg, &c18::SchemaCheck, serde_json::json!({}))
         }
-        "C17" | "C11" => {
+        "C17" => {
             let mut cfg = crate::base_cfg(prop, tier);
-            let single = prop == "C17";
-            cfg.runs = if quick { if single { 4000 } else { 2000 } } else { 400_000 };
-            cfg.rule = if single {
-                "one run = one generated CSV/TSV file (8 dialects x header/no header x column kinds x quoting styles x LF/CRLF x trailing newline or not, 0-1200 records, below and above the 4 KiB inference sample) read by SELECT *, DESCRIBE and the bare-path form through SimFs in the reference configuration and in 2-3 seeded configurations (read granularity 1 byte .. whole, Pending reads/opens, batch 1-8192, partitions 1-8, scheduling policy); every outcome must equal the harness's own RFC-4180 parse (R-CSV) typed by the narrowest-type rule over the sampled records, and all configurations must agree. Non-trivial = >=1 fired fault (short read, Pending I/O) or >=2 scheduling decisions with choice; distinct = distinct (scan configuration, event-trace digest).".to_string()
-            } else {
-                "one run = 1-6 generated CSV files of one schema in nested directories on the simulated disk, read through a file list, a glob and a GROUP BY _filename query, with shuffled/chunked/Pending directory listings, partitions 1-8, batch 1-8192 and short reads; result must be the bag union of the matching files' R-CSV rows, each file exactly once, identical in every configuration. Non-trivial = >=1 fired fault or >=2 scheduling decisions with choice.".to_string()
-            };
-            cfg.assumptions = vec!["R-CSV (the harness's RFC-4180 state machine) and Rust's bool/i64/f64 text parsers define 'fits'".into(), "dialect is existential unless the generating dialect is the only one satisfying the documented inference criteria on the sample".into(), "'**' is only generated where zero-directory and one-or-more-directory readings agree".into()];
-            let chk = c17::CsvCheck { property: if single { "C17" } else { "C11" }, mode: if single { c17::CsvMode::Single } else { c17::CsvMode::Multi } };
+            cfg.runs = if quick { 4000 } else { 400_000 };
+            cfg.rule = "one run = one generated CSV/TSV file (8 dialects x header/no header x column kinds x quoting styles x LF/CRLF x trailing newline or not, 0-1200 records, below and above the 4 KiB inference sample) read by SELECT *, DESCRIBE and the bare-path form through SimFs in the reference configuration and in 2-3 seeded configurations (read granularity 1 byte .. whole, Pending reads/opens, batch 1-8192, partitions 1-8, scheduling policy); every outcome must equal the harness's own RFC-4180 parse (R-CSV) typed by the narrowest-type rule over the sampled records, and all configurations must agree. Non-trivial = >=1 fired fault (short read, Pending I/O) or >=2 scheduling decisions with choice; distinct = distinct (scan configuration, event-trace digest).".to_string();
+            cfg.assumptions = vec!["R-CSV (the harness's RFC-4180 state machine) and Rust's bool/i64/f64 text parsers define 'fits'".into(), "dialect is existential unless the generating dialect is the only one satisfying the documented inference criteria on the sample".into()];
+            let chk = c17::CsvCheck { property: "C17", mode: c17::CsvMode::Single };
+            crate::finish(&cfg, &chk, serde_json::json!({}))
+        }
+        "C10" => {
+            let mut cfg = crate::base_cfg(prop, tier);
+            cfg.runs = if quick { 2500 } else { 300_000 };
+            cfg.rule = "one run = one Parquet file produced by the harness's own writer (21 physical/logical type combinations, PLAIN / dictionary (+fallback) / RLE / DELTA_BINARY_PACKED / DELTA_LENGTH_BYTE_ARRAY / DELTA_BYTE_ARRAY / BYTE_STREAM_SPLIT, v1/v2 pages of 1..100000 values, 7 codecs, required/optional with NULL patterns, 0-1200 rows in 1..n row groups, annotation styles, padding) read by SELECT *, SELECT _rowid,*, DESCRIBE and the parquet metadata functions through SimFs in the reference configuration and 2-3 seeded configurations (read granularity 1 byte .. whole, Pending seeks/reads, batch 1-8192, partitions 1-8, scheduling policy). Expected = the rows, types and footer facts the writer was given. Non-trivial = >=1 fired fault or >=2 scheduling decisions with choice; distinct = distinct (scan configuration, event-trace digest).".into();
+            cfg.assumptions = vec!["breadth is bounded by what the harness writer can encode (flat schemas; no nested types, no page indexes, no bloom filters, no encryption)".into(), "third-party codec crates (snap, flate2, brotli, lz4_flex, zstd) produce valid streams".into()];
+            let chk = c10::PqCheck { property: "C10", mode: c10::PqMode::Read };
+            crate::finish(&cfg, &chk, serde_json::json!({}))
+        }
+        "C11" => {
+            let mut cfg = crate::base_cfg(prop, tier);
+            cfg.runs = if quick { 3000 } else { 400_000 };
+            cfg.rule = "even runs: 1-6 generated CSV files of one schema in nested directories read through a file list, a glob and GROUP BY _filename (shuffled/chunked/Pending listings, partitions 1-8, short reads) plus projections/predicates over the first file: result = bag union of the files' reference rows, each file exactly once. Odd runs: one generated Parquet file (integer/text/bool columns, 1-40-row row groups, statistics exact / deprecated-only / widened-inexact / null-count-only / absent, signed and unsigned, NULL-only chunks) queried with projections (subset, reorder, repeat, _rowid) and predicates (col = const at / next to occurring values with and without a cast to the column type, >, IS [NOT] NULL, text equality) with the optimizer on or off: result = reference rows filtered by the harness. Non-trivial = >=1 fired fault or >=2 scheduling decisions with choice.".into();
+            cfg.assumptions = vec!["'**' is only generated where zero-directory and one-or-more-directory readings agree".into(), "statistics written by the harness are truthful (lying statistics belong to C19)".into()];
+            let chk = Composite { a: Box::new(c17::CsvCheck { property: "C11", mode: c17::CsvMode::Multi }), b: Box::new(c10::PqCheck { property: "C11", mode: c10::PqMode::Pushdown }) };
             crate::finish(&cfg, &chk, serde_json::json!({}))
         }
         "C02" | "C03" | "C04" => {
@@ -205,5 +217,26 @@ pub fn replay_file(path: &str) -> i32 {
             println!("replay of {path}: the recorded violation (class {}) did not reproduce", r.class);
             0
         }
+    }
+}
+
+/// Alternates two checks by run parity; shrinking is offered by both (each
+/// recognises its own violations by the auxiliary data they carry).
+pub struct Composite {
+    pub a: Box<dyn crate::campaign::Check>,
+    pub b: Box<dyn crate::campaign::Check>,
+}
+
+impl crate::campaign::Check for Composite {
+    fn run_one(&self, run: u64, rng: crate::rng::Rng, stats: &mut crate::campaign::Stats) -> Vec<Violation> {
+        if run % 2 == 0 { self.a.run_one(run / 2, rng, stats) } else { self.b.run_one(run / 2, rng, stats) }
+    }
+    fn shrink(&self, v: &Violation) -> Vec<Violation> {
+        let mut c = self.a.shrink(v);
+        c.extend(self.b.shrink(v));
+        c
+    }
+    fn describe(&self, v: &Violation) -> Option<String> {
+        self.a.describe(v).or_else(|| self.b.describe(v))
     }
 }
